@@ -11,7 +11,8 @@
 (*   "cond-quick"     all condition trees of height <= 2 over four core    *)
 (*                    atoms x (database A, all attributes) and (database   *)
 (*                    B, two interfaces, dport only)                       *)
-(*   "cond-thorough"  ... over six core atoms x 3 databases x 4 selections *)
+(*   "cond-thorough"  ... over six core atoms x four (database, attribute   *)
+(*                    selection) combinations over three databases         *)
 (*   "pair"           NSeeded seeded databases x a pairwise covering       *)
 (*                    design over (attributes x labels x range class x     *)
 (*                    direction filter); PairwiseOK is checked by TLC;     *)
@@ -116,12 +117,8 @@ WithSel(q, v) == [x \in DOMAIN q \cup {"sel"} |-> IF x = "sel" THEN v ELSE q[x]]
 CondCasesV(t, v) ==
   IF GenSet = "cond-quick"
   THEN << CaseOf("A", WithSel(Sel1(t, {"e0"}), v), "cond"), CaseOf("B", WithSel(Sel2(t, {"e0", "e1"}), v), "cond") >>
-  ELSE << CaseOf("A", WithSel(Sel1(t, {"e0"}), v), "cond"), CaseOf("A", WithSel(Sel2(t, {"e0"}), v), "cond"),
-          CaseOf("A", WithSel(Sel3(t, {"e0"}), v), "cond"), CaseOf("A", WithSel(Sel4(t, {"e0"}), v), "cond"),
-          CaseOf("B", WithSel(Sel1(t, {"e0", "e1"}), v), "cond"), CaseOf("B", WithSel(Sel2(t, {"e0", "e1"}), v), "cond"),
-          CaseOf("B", WithSel(Sel3(t, {"e0", "e1"}), v), "cond"), CaseOf("B", WithSel(Sel4(t, {"e1"}), v), "cond"),
-          CaseOf("C", WithSel(Sel1(t, {"e0", "lan_1"}), v), "cond"), CaseOf("C", WithSel(Sel2(t, {"e0"}), v), "cond"),
-          CaseOf("C", WithSel(Sel3(t, {"lan_1", "e0"}), v), "cond"), CaseOf("C", WithSel(Sel4(t, {"e0", "lan_1"}), v), "cond") >>
+  ELSE << CaseOf("A", WithSel(Sel1(t, {"e0"}), v), "cond"), CaseOf("B", WithSel(Sel2(t, {"e0", "e1"}), v), "cond"),
+          CaseOf("C", WithSel(Sel3(t, {"lan_1", "e0"}), v), "cond"), CaseOf("B", WithSel(Sel4(t, {"e1"}), v), "cond") >>
 CondCases(t) == CondCasesV(t, SelOf(t))
 
 \* ---- pairwise design over (a: attribute subset 0..15, l: labels 0..3, r: range class 0..6,
